@@ -9,7 +9,7 @@ from harness.c01 import chunks
 LEVEL = "proof"
 ENTRY = "socialchoicekit.elicitation_* get_simulated_cardinal_profile"
 REL = Fraction(1, 10 ** 12)
-KINDS = ["unit_sum", "skewed", "tie_heavy", "zeros", "integer", "one_rich", "near_threshold"]
+KINDS = ["unit_sum", "skewed", "tie_heavy", "zeros", "integer", "one_rich", "near_threshold", "tiny", "huge"]
 
 
 @guard
